@@ -643,7 +643,7 @@ def _shapes(ctx, reqs, pending, spec_reqs, spec_pending, only_idx=None):
     from pydicom.sr.codedict import codes
     import highdicom as hd
     pairs = [(a, b) for a in SHAPES for b in SHAPES]
-    n_tri = ctx.n(60, 1500)
+    n_tri = ctx.n(60, 900)
     idxs = range(len(pairs) + n_tri) if only_idx is None else [only_idx]
     for idx in idxs:
         r = ctx.rng('shapes', idx)
@@ -702,7 +702,7 @@ def _third_party(ctx, reqs3, pending3, only_idx=None):
     groups returned (L0) — this is what exercises the error paths of the ROI reference search."""
     import highdicom as hd
     from gen import srreports
-    for idx in ([only_idx] if only_idx is not None else range(ctx.n(14, 220))):
+    for idx in ([only_idx] if only_idx is not None else range(ctx.n(14, 160))):
         r = ctx.rng('thirdparty', idx)
         res = _call(srreports.report, r, r.choice([1, 2, 3]), ('planar', 'volumetric'))
         if res[0] != 'ok':
@@ -802,7 +802,7 @@ def run(ctx):
     reqs2, pending2 = [], []
     spec_reqs, spec_pending = [], []
     _helpers(ctx, reqs2, pending2)
-    for idx in range(ctx.n(22, 400)):
+    for idx in range(ctx.n(22, 250)):
         res = _call(_report_case, ctx, idx)
         if res[0] != 'ok':
             ctx.fail({'stream': 'report', 'seed': ctx.seed, 'idx': idx}, f'a valid report could not be constructed: {res[2]}',
